@@ -358,7 +358,7 @@ def spline_modifier(chk, P):
         pot = I.run(fi, [ListV([first], "list"), PyObjV(_Builder())])
         if not (isinstance(pot, InstV) and pot.ci.name == "Custom_SplinePotential"):
             raise AnalysisError("spline() returned %r" % (pot,))
-        spl = pot.attrs.get("_spline")
+        spl = I.getattr(pot, "interpolationFunction")
         chk.ob("C10.O4", "keyword %r builds a %s" % (keyword, clsname), isinstance(spl, InstV) and spl.ci.name == clsname, site=site,
                found=spl, expect=clsname, key="C10.O4|%s|class" % keyword)
         dx = I.num(I.getattr(pot, "detachmentX"))
@@ -412,7 +412,7 @@ def buck4_shorthand(chk, P):
     for attr, sym_ in (("detachmentX", "r_detach"), ("attachmentX", "r_attach")):
         v = I.num(I.getattr(pot, attr))
         chk.ob("C10.O5", "%s is %s" % (attr, sym_), ep.equal(v, ep.sym(sym_))[0], site=site, found=v, expect=sym_, key="C10.O5|" + attr)
-    spl = pot.attrs.get("_spline")
+    spl = I.getattr(pot, "interpolationFunction")
     rm = I.num(I.getattr(spl, "r_min")) if isinstance(spl, InstV) else None
     chk.ob("C10.O5", "the stationary point is r_min", rm is not None and ep.equal(rm, ep.sym("r_min"))[0], site=site, found=rm, expect="r_min",
            key="C10.O5|r_min")
